@@ -121,7 +121,21 @@ def case(c):
                 f.setLayout('v_parallel')
                 S.set_f(seed)
                 S.solve_qn()
-                return {'f': simdriver.block_info(f), 'phi': simdriver.block_info(phi), 'rho': simdriver.block_info(rho)}
+                out = {'f': simdriver.block_info(f), 'phi': simdriver.block_info(phi), 'rho': simdriver.block_info(rho)}
+                # the density finder and the solver of this simulation then serve a second one that lives on the transposed
+                # process grid (other radial blocks on the same ranks): still the serial result
+                g2 = (nprocs[1], nprocs[0])
+                if not (g2[0] <= min(npts[0], npts[3], npts[1]) and g2[1] <= min(npts[2], npts[3])):
+                    g2 = tuple(nprocs)
+                comm.Barrier()
+                S2 = simdriver.Sim(comm, npts, g2, iota=iota, extra=extra)
+                comm.Barrier()
+                S2.f.setLayout('v_parallel')
+                S2.set_f(seed)
+                S2.density, S2.QN = S.density, S.QN
+                S2.solve_qn()
+                out['phi_reuse'], out['rho_reuse'] = simdriver.block_info(S2.phi), simdriver.block_info(S2.rho)
+                return out
             return {'f': simdriver.block_info(f)}
         # ---- spy mode
         tl.rec = []
